@@ -84,7 +84,7 @@ MANIFEST = {
             "text files through the file generators, deepcopy/pickle of every env, and Lightning checkpoints of REINFORCE "
             "(5 baselines), AttentionModel (warm-up rollout baseline), POMO and PPO restored with load_from_checkpoint. "
             "Equivalence is judged on content and on behaviour (masks and rewards along replayed histories, greedy "
-            "actions/rewards/log-likelihoods, weights). Exploration over instances x envs x model/baseline combinations.",
+            "actions/rewards/log-likelihoods, weights). Exploration over instances x envs x model/baseline combinations. Also: generate_dataset default paths / OP prize rules / capacity override / MDPP files, files whose content must not depend on the generation history, double-precision and mixed-dtype npz round trips, phase-default decoding after checkpoint restore.",
     "note": "Scratch files live under a temp directory removed in a finally block.",
     "technique": "runtime monitoring: save/restore round trips with trace replay (recorded action histories replayed on the restored object and compared)",
     "design_ref": "DESIGN.md section 4 / C19",
